@@ -39,14 +39,15 @@ def Conforms (c : Cfg) (P : Prog) (k len : Nat) (ctx : Ctx) (n : Node) : Prop :=
       | .error e => ∃ s1 s2, Steps c P s s1 ∧ s1.ip < P.code.size ∧ step c P s1 = .error (e, s2) ∧ obs s2 = σ'
 
 theorem conforms_of_sim {c : Cfg} {P : LProg} {k : Nat} {code : List LInstr} {ctx : Ctx} {n : Node}
-    (hcode : CodeAt P k code) (h : Sim c P ctx n code) : Conforms c P.prog k (lsize code) ctx n := by
+    (hcode : CodeAt P k code) (hbl : ∀ e l, P.blame e l) (h : Sim c P ctx n code) :
+    Conforms c P.prog k (lsize code) ctx n := by
   intro s hip hlim hsc r σ' hev
   have hs : noPP (vm k s.stack s.scopes (obs s) c.budget) = noPP s := by
     obtain ⟨st, scs, ip, pp, mem, lim, cr, lg⟩ := s
     simp only at hip hlim
     subst hip hlim
     rfl
-  have hrun := (h k s.stack s.scopes (obs s) r σ' hcode hsc hev).congr_noPP hs
+  have hrun := (h k s.stack s.scopes (obs s) r σ' hcode hsc hev (fun e l _ _ => hbl e l)).congr_noPP hs
   cases r with
   | ok v =>
     obtain ⟨t, ht, htt⟩ := hrun
@@ -92,8 +93,8 @@ theorem compile_correct_partial (n : Node) : ∀ (cfg : CompCfg) (pool pool' : P
     ∀ (c : Cfg), EnvOK c cfg → Good (SmallColl c) n → ∀ (ctx : Ctx), Conforms c P (lsize pre) (lsize code) ctx n := by
   intro cfg pool pool' code F hc hF hinv hfl P pre post hP hK hfit c henv hg ctx
   let L : LProg := ⟨P, pre ++ code ++ post, hP, fun _ _ => True⟩
-  exact conforms_of_sim (P := L) (codeAt_of_layout rfl hfit)
-    (compile_sim hc hF hinv hfl hg hK henv (loopCase_holds c L) (allBlame_trivial c L (fun _ _ => trivial) n) ctx)
+  exact conforms_of_sim (P := L) (codeAt_of_layout rfl hfit) (fun _ _ => trivial)
+    (compile_sim hc hF hinv hfl hg hK henv (loopCase_holds c L) ctx)
 
 /-- C05's balance statement is the shape of the success case: the stack found plus one value, the scope
     stack found — for every construct, loops included. -/
@@ -211,9 +212,8 @@ theorem compile_correct_stageA (n : Node) : ∀ (cfg : CompCfg) (pool pool' : Po
     ∀ (c : Cfg), EnvOK c cfg → ∀ (ctx : Ctx), Conforms c P (lsize pre) (lsize code) ctx n := by
   intro cfg pool pool' code F hc hF hinv hfl hg P pre post hP hK hfit c henv ctx
   let L : LProg := ⟨P, pre ++ code ++ post, hP, fun _ _ => True⟩
-  exact conforms_of_sim (P := L) (codeAt_of_layout rfl hfit)
-    (compile_sim hc hF hinv hfl hg hK henv (fun _ _ _ _ _ _ _ _ _ _ _ _ h => h.elim)
-      (allBlame_trivial c L (fun _ _ => trivial) n) ctx)
+  exact conforms_of_sim (P := L) (codeAt_of_layout rfl hfit) (fun _ _ => trivial)
+    (compile_sim hc hF hinv hfl hg hK henv (fun _ _ _ _ _ _ _ _ _ _ _ _ h => h.elim) ctx)
 
 theorem run_conforms_stageA (cfg : CompCfg) (n : Node) (cp : Compiled) (F : Val → Prop) (c : Cfg)
     (hc : compileProgram cfg n = .ok cp) (hF : AliasFree F) (hfl : FloatsIn F n) (hg : Good (fun _ => False) n)
